@@ -60,7 +60,16 @@ def canon(x, depth=0, seen=None):
         extra = ()
         if isinstance(x, float):        # DECAngle is a float subclass
             extra = (('__float__', float(x).hex()),)
-        return ('obj', type(x).__name__) + extra + tuple(sorted((k, canon(v, depth + 1, seen)) for k, v in vars(x).items()))
+        # state an object shares with its class: mutable containers defined at class level (and on the library's base classes) are
+        # part of what every instance shows (x.notes, repr(x)) although they are in no instance dictionary (repr itself is not
+        # evaluated here: it is library code and would run inside the scheduled threads)
+        cls_state = ()
+        for klass in type(x).__mro__:
+            if getattr(klass, '__module__', '').startswith(('geodepy', 'api')):
+                for k, v in vars(klass).items():
+                    if isinstance(v, (list, dict, set, bytearray, np.ndarray)) and not k.startswith('__'):
+                        cls_state += (('class:' + klass.__name__ + '.' + k, canon(v, depth + 1, seen)),)
+        return ('obj', type(x).__name__) + extra + tuple(sorted((k, canon(v, depth + 1, seen)) for k, v in vars(x).items())) + cls_state
     return ('repr', repr(x)[:200])
 
 
